@@ -2391,6 +2391,30 @@ def c14_rules(ctx):
         for p in mfull:
             ctx.flows(f, p, 2, from_call='DatabaseLayout::num_regions', what='regions marked full are the removed ones (index from new_layout.num_regions()..)')
         ctx.guarded(f, mfull, [Guard(place='shrink', vals={'true'})])
+    # the order reported by a free is where merging stopped: the requested order when nothing merged, otherwise
+    # whatever the recursion into the next order reports -- through BuddyAllocator::free unchanged
+    ctx.set_rule('C14.R2', 'the order marked is the order obtained')
+    for pat, inner in (('BuddyAllocator::free_inner', 'BuddyAllocator::free_inner'), ('BuddyAllocator::free', 'BuddyAllocator::free_inner')):
+        f = ctx.fn(pat)
+        if f is None:
+            continue
+        s_ = core.sym(f)
+        rec = ctx.sites(f, inner, exact=1)
+        rec_bbs = {p.bb for p in rec}
+        order_arg = None
+        for i_ in range(1, f.argc + 1):
+            if f.local_name(i_) == 'order':
+                order_arg = i_
+        rets = []
+        for d in f.defs.get(0, []):
+            t = ('call', d[1]) if d[0] == 'call' else s_.def_term(d, 0)
+            rets.append(t)
+        via_rec = [t for t in rets if t[0] == 'call' and t[1] in rec_bbs]
+        other = [t for t in rets if not (t[0] == 'call' and t[1] in rec_bbs)]
+        ok = len(via_rec) == 1 and all(t == ('arg', order_arg) for t in other) and (pat.endswith('free_inner') or not other)
+        ctx._ob(ok, ctx.sample('arg-flow', f, f.line, 'returned order is the requested order or the order the merge recursion reports'))
+        if not ok:
+            ctx.violate('arg-flow|%s|merged-order' % f.path, 'the order reported by %s is not (only) the requested order or the result of %s: the region tracker would be told a smaller block than the one that became free (%s)' % (pat, inner, [s_.describe(t) for t in rets]), f, f.line)
     ctx.set_rule('C14.R1', 'every source of new free space re-marks the region tracker')
     f = ctx.fn('Allocators::new')
     if f is not None:
@@ -3377,3 +3401,257 @@ def loop_completeness_rules(ctx):
     if f is not None:
         rp = [cpoint(c) for c in f.calls_to('UnpersistedState::replace_data_freed')]
         ctx.each_iteration_passes(f, rp, 'every considered record is replaced by its survivors', 'record-skipped')
+
+
+def full_range_fn(ctx, f, what, count_pat, idx_pats):
+    ADD = ('Add', 'AddWithOverflow', 'AddUnchecked')
+    SUB = ('Sub', 'SubWithOverflow', 'SubUnchecked')
+    s = core.sym(f)
+    cc_bbs = {c.bb for c in f.calls if c.matches(count_pat)}
+    nxt = [c for c in f.calls if c.declared and c.declared.split('::')[-1] in ('next', 'next_back') and 'Iterator' in c.declared]
+
+    def chain_source(c):
+        """follow the receiver of a `next` call back through into_iter / rev to the range it iterates"""
+        t = s.operand(c.t['a'][0])
+        for _ in range(8):
+            if t[0] == 'place' and all(p == '*' for p in t[2]):
+                t = t[1]
+            if t[0] == 'agg':
+                return t
+            if t[0] != 'call':
+                return None
+            cs = core.CallSite(f, t[1], f.blocks[t[1]]['t'])
+            nm = (cs.declared or cs.callee or '').split('::')[-1]
+            if nm not in ('into_iter', 'rev') or not cs.t['a']:
+                if nm == 'new' and 'RangeInclusive' in (cs.callee or ''):
+                    return t
+                return None
+            t = s.operand(cs.t['a'][0])
+        return None
+
+    def lin0(t, loop_bb, depth=0):
+        if t[0] == 'place' and t[2] and all(p == '*' for p in t[2]):
+            t = t[1]
+        return lin(t, loop_bb, depth)
+
+    def lin(t, loop_bb, depth=0):
+        if depth > 12:
+            return None
+        if t[0] == 'const':
+            try:
+                return (0, 0, int(t[2]))
+            except (TypeError, ValueError):
+                return None
+        if t[0] == 'call' and t[1] in cc_bbs:
+            return (1, 0, 0)
+        if t[0] == 'place':
+            if t[1][0] == 'call' and t[1][1] == loop_bb and not [p for p in t[2] if p.startswith('[')]:
+                return (0, 1, 0)
+            if t[1][0] == 'cmp' and tuple(t[2]) == ('.0',):
+                return lin(t[1], loop_bb, depth + 1)
+            return None
+        if t[0] == 'cmp' and t[1] in ADD + SUB:
+            a = lin(t[2], loop_bb, depth + 1)
+            b = lin(t[3], loop_bb, depth + 1)
+            if a is None or b is None:
+                return None
+            sg = 1 if t[1] in ADD else -1
+            return (a[0] + sg * b[0], a[1] + sg * b[1], a[2] + sg * b[2])
+        return None
+
+    loops = []
+    for c in nxt:
+        src = chain_source(c)
+        if src is None:
+            continue
+        if src[0] == 'agg' and str(src[1]).endswith('ops::Range') and len(src) >= 5:
+            st = f.blocks[src[3]]['s'][src[4]]
+            lo, hi = lin(s.operand(st[2]['o'][0]), None), lin(s.operand(st[2]['o'][1]), None)
+        elif src[0] == 'call':
+            cs = core.CallSite(f, src[1], f.blocks[src[1]]['t'])
+            lo, hi = lin(s.operand(cs.t['a'][0]), None), lin(s.operand(cs.t['a'][1]), None)
+            if hi is not None:
+                hi = (hi[0], hi[1], hi[2] + 1)
+        else:
+            continue
+        if hi is not None and hi[0] != 0:
+            loops.append((c, lo, hi))
+    ok = len(loops) == 1
+    ctx._ob(ok, ctx.sample('full-range', f, f.line, '%s: one loop over a range bounded by count_children()' % what))
+    if not ok:
+        ctx.violate('full-range|%s|range-count' % f.path, 'expected exactly one loop over a range bounded by count_children() (reached only through into_iter / rev) in the %s, found %d' % (what, len(loops)), f, f.line)
+    idx_calls = [c for c in f.calls if any(c.matches(ip) for ip in idx_pats)]
+    ctx.check(len(idx_calls) >= 1, 'floor|%s|child_page' % f.path, 'the walker reads child pages', f, f.line)
+    for (lc, lo, hi) in loops:
+        for c in idx_calls:
+            ix = lin(s.operand(c.t['a'][1]), lc.bb)
+            ok = False
+            why = 'the index is not a linear expression of count_children() and the loop variable'
+            if ix is not None and lo is not None and lo[1] == 0 and hi[1] == 0 and ix[1] in (1, -1):
+                if ix[1] == 1:
+                    first = (ix[0] + lo[0], ix[2] + lo[2])          # index at i = lo
+                    last = (ix[0] + hi[0], ix[2] + hi[2] - 1)       # index at i = hi - 1
+                else:
+                    last = (ix[0] - lo[0], ix[2] - lo[2])           # largest index, at i = lo
+                    first = (ix[0] - hi[0], ix[2] - hi[2] + 1)      # smallest index, at i = hi - 1
+                ok = first == (0, 0) and last == (1, -1)
+                why = 'visited indices run from %s to %s, not from 0 to n-1' % (_lin_str(first), _lin_str(last))
+            ctx._ob(ok, ctx.sample('full-range', f, c.line, 'indices visited by %s are exactly 0..count_children()' % c.callee.split('::')[-1]))
+            if not ok:
+                ctx.violate('full-range|%s|index|%s' % (f.path, c.callee.split('::')[-1]), 'the %s does not visit every child through %s: %s' % (what, c.callee.split('::')[-1], why), f, c.line)
+
+
+def full_range_rules(ctx):
+    """The tree walkers that must see every child of a branch page visit exactly the index set
+    [0, count_children()): the loop range and the index expression are reduced to linear forms over
+    n = count_children() and the loop variable i, the iterator chain between the range and the loop may
+    only reverse it, and the visited set {index(i) : i in range} must equal [0, n).  `for i in
+    (0..n).rev()`, `for i in 0..n { child(n - 1 - i) }` and `for i in 1..=n { child(n - i) }` all pass;
+    `for i in 1..n { child(n - i) }` (child 0 never visited) does not."""
+    ctx.set_rule('C06.R9', 'tree walkers cover every child: the visited index set equals [0, count_children())')
+    walkers = [
+        ('UntypedBtree::visit_pages_helper', 'page walk of rebuild / delete / stats'),
+        ('UntypedBtreeMut::finalize_dirty_checksums_helper', 'checksum finalisation'),
+        ('UntypedBtreeMut::dirty_leaf_visitor_helper', 'dirty leaf visitor'),
+        ('UntypedBtreeMut::relocate_helper', 'compaction relocation'),
+        ('RawBtree::verify_checksum_helper', 'checksum verification'),
+        ('<AllPageNumbersBtreeIter as Iterator>::next', 'all-pages iterator (multimap subtrees)'),
+        ('multimap_btree::relocate_subtrees', 'relocation of multimap subtrees'),
+    ]
+    n = 0
+    for pat, what in walkers:
+        f = ctx.fn(pat)
+        if f is None:
+            continue
+        full_range_fn(ctx, f, what, 'BranchAccessor::count_children', ('BranchAccessor::child_page', 'BranchAccessor::child_checksum'))
+        n += 1
+    ctx.check(n >= 7, 'floor|walkers', 'tree walkers analysed: %d' % n)
+
+
+def _lin_str(ab):
+    a, c = ab
+    if a == 0:
+        return str(c)
+    return ('n' if a == 1 else '%d*n' % a) + (('%+d' % c) if c else '')
+
+
+def savepoint_counter_rules(ctx):
+    """The persisted next-savepoint-id is written by callers that reach the system-tables lock in any order
+    (ids are handed out under a different lock), so the stored value may only ratchet up: it is read,
+    combined with the new id through `max`, and written back, all under one hold of the lock."""
+    ctx.set_rule('C07.R9', 'the persisted next-savepoint id only ratchets up (read, combine, write under one lock)')
+    f = ctx.fn(WT + '::persistent_savepoint')
+    if f is None:
+        return
+    ins_all = ctx.sites(f, 'SystemTable::insert', exact=2)
+    nxt = [p for p in ins_all if core.flows_from_call(f, p.call.t['a'][2], 'SavepointId::next')]
+    ctx.check(len(nxt) == 1, 'floor|%s|counter-insert' % f.path, 'one insert persists the next savepoint id (found %d)' % len(nxt), f, f.line)
+    gt = ctx.sites(f, 'SystemTable::get', exact=1)
+    for p in nxt:
+        ctx.flows(f, p, 2, from_call='SystemTable::get', what='the persisted counter depends on the stored one (it can only ratchet up)')
+    ctx.order(f, gt, nxt)
+    ctx.held(f, gt + nxt, 'self.system_tables')
+    # one hold: between the read and the write the lock is not re-taken
+    lk = [c for c in f.calls if c.matches('Mutex::lock') and 'system_tables' in core.sym(f).describe(core.sym(f).operand(c.t['a'][0]))]
+    if gt and nxt:
+        r = core.reach(f, start=(gt[0].bb, gt[0].idx), cut_blocks={nxt[0].bb})
+        again = [c for c in lk if c.bb in r['term']]
+        ctx.check(not again, 'held|%s|one-hold' % f.path, 'the system-tables lock is not re-taken between reading and writing the counter', f, gt[0].line)
+
+
+def compaction_target_rules(ctx):
+    """Relocation targets are pages taken from the allocator outside every tree: each must be obtained only
+    for a page that has no target yet, and must end up either in the relocation map or back in the
+    allocator -- otherwise it is allocated, owned by nothing and committed that way."""
+    ctx.set_rule('C13.R4', 'a relocation target is allocated only for a page without one, and is recorded in the relocation map or released')
+    f = ctx.fn(WT + '::compact_pages')
+    if f is None:
+        return
+    al = ctx.sites(f, PA + '::allocate_lowest', exact=2)
+    ck = ctx.sites(f, ['HashMap::contains_key', 'BTreeMap::contains_key'], exact=2)
+    ins = ctx.sites(f, ['HashMap::insert', 'BTreeMap::insert'], exact=2)
+    fr = ctx.sites(f, PA + '::free', exact=1)
+    ctx.guarded(f, al, [Guard(call='HashMap::contains_key', vals={'false'}), Guard(call='BTreeMap::contains_key', vals={'false'})], 'no second target for a page that already has one')
+    s_ = core.sym(f)
+    subj = {repr(s_.operand(p.call.t['a'][0])) for p in ck + ins}
+    ctx.check(len(subj) == 1, 'subject|%s|relocation-map' % f.path, 'the map consulted and the map filled are the same map', f, f.line)
+    # from each allocation, the next iteration / the return is reached only through insert or free (error exits abort the transaction)
+    nxt = [c for c in f.calls if c.declared and c.declared.split('::')[-1] == 'next' and 'Iterator' in c.declared]
+    for a_ in al:
+        r = core.reach(f, start=(a_.bb, a_.idx), cut_blocks={p.bb for p in ins + fr} | core.error_blocks(f))
+        skipped = [n_ for n_ in nxt if n_.bb in r['term']] or [rb for rb in f.ret_blocks() if rb in r['term']]
+        ctx._ob(not skipped, ctx.sample('must-pass', f, a_.line, 'the allocated target is recorded or released before the loop advances'))
+        if skipped:
+            ctx.violate('must-pass|%s|target-dropped|%d' % (f.path, al.index(a_)), 'a relocation target obtained from allocate_lowest can reach the next iteration / the return without being recorded in the relocation map or released', f, a_.line)
+    # the released one is the page just obtained; the recorded value likewise
+    for p in fr:
+        ctx.flows(f, p, 1, from_call=PA + '::allocate_lowest', what='the page released is the unused target')
+    for p in ins:
+        ctx.flows(f, p, 2, from_call=PA + '::allocate_lowest', what='the recorded target is the page just allocated')
+
+
+def staged_root_rules(ctx):
+    """What is staged for a table in `pending_table_updates` is (root, length, dirty): the length of a
+    table is not the length of its tree for multimap tables (pairs vs. keys), so every producer of the
+    tuple must take it from where the contents' own count lives."""
+    ctx.set_rule('C13.R3', 'staged table roots carry the table length unchanged: the caller\'s length at close, the definition\'s own length at relocation')
+
+    def staged_tuple(f):
+        s = core.sym(f)
+        out = []
+        for c in f.calls_to('BTreeMap::insert'):
+            if len(c.t['a']) < 3:
+                continue
+            recv = s.describe(s.operand(c.t['a'][0]))
+            if 'pending_table_updates' not in recv:
+                continue
+            t = s.operand(c.t['a'][2])
+            if t[0] == 'agg' and len(t) >= 5:
+                st = f.blocks[t[3]]['s'][t[4]]
+                out.append((c, st))
+            else:
+                out.append((c, None))
+        return out
+
+    f = ctx.fn('TableTreeMut::relocate_tables')
+    if f is not None:
+        s = core.sym(f)
+        tl = staged_tuple(f)
+        ctx.check(len(tl) == 1, 'floor|%s|staged' % f.path, 'relocate_tables stages exactly one tuple (found %d)' % len(tl), f, f.line)
+        gl = {c.bb for c in f.calls_to('InternalTableDefinition::get_length')}
+        rt = {c.bb for c in f.calls_to('InternalTableDefinition::relocate_tree')}
+        for c, st in tl:
+            ok = st is not None and len(st[2]['o']) == 3
+            if ok:
+                ln = s.operand(st[2]['o'][1])
+                ok = ln[0] == 'call' and ln[1] in gl
+            ctx._ob(ok, ctx.sample('arg-flow', f, c.line, 'staged length is definition.get_length()'))
+            if not ok:
+                ctx.violate('arg-flow|%s|staged-length' % f.path, 'the length staged for a relocated table is not the definition\'s own length (get_length()): for a multimap table the tree header counts keys, the table counts pairs', f, c.line)
+    f = ctx.fn('TableTreeMut::stage_update_table_root')
+    if f is not None:
+        s = core.sym(f)
+        tl = staged_tuple(f)
+        ctx.check(len(tl) == 1, 'floor|%s|staged' % f.path, 'stage_update_table_root stages exactly one tuple (found %d)' % len(tl), f, f.line)
+        for c, st in tl:
+            ok = st is not None and len(st[2]['o']) == 3
+            if ok:
+                r0 = s.operand(st[2]['o'][0])
+                r1 = s.operand(st[2]['o'][1])
+                ok = r0 == ('arg', 3) and r1 == ('arg', 4)
+            ctx._ob(ok, ctx.sample('arg-flow', f, c.line, 'staged (root, length) are the caller\'s arguments'))
+            if not ok:
+                ctx.violate('arg-flow|%s|staged-args' % f.path, 'stage_update_table_root does not stage its `table_root` and `length` arguments unchanged', f, c.line)
+    # a renamed table takes its staged update along; a deleted table loses it
+    f = ctx.fn('TableTreeMut::rename_table')
+    if f is not None:
+        s = core.sym(f)
+        rm = [c for c in f.calls_to('BTreeMap::remove') if 'pending_table_updates' in s.describe(s.operand(c.t['a'][0]))]
+        tl = [c for c in f.calls_to('BTreeMap::insert') if 'pending_table_updates' in s.describe(s.operand(c.t['a'][0]))]
+        ctx.check(len(rm) == 1 and len(tl) == 1, 'floor|%s|move-staged' % f.path, 'rename moves the staged update (remove under the old name, insert under the new one)', f, f.line)
+        for c in tl:
+            t = s.operand(c.t['a'][2])
+            ok = t[0] == 'place' and t[1][0] == 'call' and rm and t[1][1] == rm[0].bb
+            ctx._ob(ok, ctx.sample('arg-flow', f, c.line, 'the re-keyed update is the removed one'))
+            if not ok:
+                ctx.violate('arg-flow|%s|rekeyed' % f.path, 'the staged update inserted under the new name is not the one removed under the old name', f, c.line)
